@@ -764,6 +764,122 @@ def min_distance_src(coll_src):
             "def minDistanceSrc (s : Safety R) (from_ to_ : Nat) : R :=\n" + "\n".join(lines) + "\n")
 
 
+def tasks_src(coll_src):
+    """`RobotBody::detect_collisions_with_skips`: which pairs of bodies become collision tasks, in push order.  Nested
+    `if` / `if let Some(..)` / `for` blocks around `tasks.push(CollisionTask { i, j, transform_i, transform_j, shape_i, shape_j })`;
+    every push is checked to hand over the pose and the mesh that belong to its two indices."""
+    body, _ = fn_body(coll_src, "detect_collisions_with_skips")
+    flat = " ".join(re.sub(r"//[^\n]*", "", body).split())
+    pre = "let mut tasks = Vec::with_capacity(self.count_tasks(&skip)); let check_tool = !skip.contains(&J_TOOL); "
+    post = " Self::process_collision_tasks(tasks, safety_distances, override_mode)"
+    if not (flat.startswith(pre) and flat.endswith(post)):
+        raise TranslateError("detect_collisions_with_skips: prologue / epilogue changed")
+    IDX = {"J_TOOL": ("jTool", "&joint_poses[J6]", "&tool"), "J_BASE": ("jBase", "&base.base_pose", "&base.mesh"),
+           "i": ("i", "&joint_poses[i]", "&self.joint_meshes[i]"), "j": ("j", "&joint_poses[j]", "&self.joint_meshes[j]"),
+           "(ENV_START_IDX + env_idx)": ("e", "&env_obj.pose", "&env_obj.mesh"), "ENV_START_IDX + env_idx": ("e", "&env_obj.pose", "&env_obj.mesh")}
+    JN = {"J1": 0, "J2": 1, "J3": 2, "J4": 3, "J5": 4, "J6": 5}
+
+    def idx(t):
+        t = t.strip()
+        t = re.sub(r" as (usize|u16)$", "", t).strip()
+        if t not in IDX:
+            raise TranslateError("detect_collisions_with_skips: unknown body index `" + t + "`")
+        return IDX[t]
+
+    def cond(c):
+        ors = []
+        for o in c.split("||"):
+            ands = []
+            for a in o.split("&&"):
+                a = a.strip()
+                m = re.match(r"^self\.check_required\((.*), (.*), &skip\)$", a)
+                if a == "check_tool":
+                    ands.append("checkTool")
+                elif m:
+                    ands.append(f"checkRequired own skip {idx(m.group(1))[0]} {idx(m.group(2))[0]}")
+                elif re.match(r"^(i|j) != J[1-6]$", a):
+                    ands.append(f"{a[0]} != {JN[a[-2:]]}")
+                elif re.match(r"^!skip\.contains\(&(i|j)\)$", a):
+                    ands.append(f"!(skip.contains {a[-2]})")
+                elif a == "j - i > 1":
+                    ands.append("j - i > 1")
+                else:
+                    raise TranslateError("detect_collisions_with_skips: unsupported condition `" + a + "`")
+            ors.append(" && ".join(ands))
+        return ors[0] if len(ors) == 1 else "(" + " || ".join(ors) + ")"
+
+    def take(text):
+        """text starts right after an opening brace; -> (inside, rest after the closing brace)"""
+        depth, k = 1, 0
+        while depth:
+            if k >= len(text):
+                raise TranslateError("detect_collisions_with_skips: unbalanced braces")
+            if text[k] == "{":
+                depth += 1
+            elif text[k] == "}":
+                depth -= 1
+            k += 1
+        return text[:k - 1].strip(), text[k:].strip()
+
+    def block(text, alias):
+        parts = []
+        alias = dict(alias)
+        text = text.strip()
+        while text:
+            m = re.match(r"let (accessory_pose|accessory) = (&[\w.\[\]]+);", text)
+            if m:
+                alias["&" + m.group(1) if m.group(1) == "accessory" else m.group(1)] = m.group(2)
+                text = text[m.end():].strip()
+                continue
+            m = re.match(r"tasks\.push\(CollisionTask \{ i: ([^,]*), j: ([^,]*), transform_i: ([^,]*), transform_j: ([^,]*), shape_i: ([^,]*), shape_j: ([^,]*), \}\);", text)
+            if m:
+                a, b = idx(m.group(1)), idx(m.group(2))
+                got = [alias.get(x.strip(), x.strip()) for x in m.groups()[2:]]
+                if got != [a[1], b[1], a[2], b[2]]:
+                    raise TranslateError(f"detect_collisions_with_skips: task ({a[0]}, {b[0]}) is handed other poses / meshes: {got}")
+                parts.append(f"[({a[0]}, {b[0]})]")
+                text = text[m.end():].strip()
+                continue
+            for pat, head, tail in [
+                (r"if let Some\(tool\) = &self\.tool \{", "(if sc.hasTool then ", " else [])"),
+                (r"if let Some\(base\) = &self\.base \{", "(if sc.hasBase then ", " else [])"),
+                (r"if let \(Some\(tool\), Some\(base\)\) = \(&self\.tool, &self\.base\) \{", "(if sc.hasTool && sc.hasBase then ", " else [])"),
+                (r"for \(env_idx, env_obj\) in self\.collision_environment\.iter\(\)\.enumerate\(\) \{", "((envIds sc.envLen).flatMap (fun e => ", "))"),
+                (r"for i in 0\.\.6 \{", "((List.range 6).flatMap (fun i => ", "))"),
+                (r"for j in \(\(i \+ 1\)\.\.6\)\.rev\(\) \{", "(((List.range 6).reverse).flatMap (fun j => if j > i then ", " else []))"),
+            ]:
+                m = re.match(pat, text)
+                if m:
+                    inside, text = take(text[m.end():])
+                    parts.append(head + block(inside, alias) + tail)
+                    break
+            else:
+                m = re.match(r"if ([^{]*) \{", text)
+                if not m:
+                    raise TranslateError("detect_collisions_with_skips: cannot read `" + text[:70] + "`")
+                inside, text = take(text[m.end():])
+                parts.append(f"(if {cond(m.group(1))} then {block(inside, alias)} else [])")
+        return " ++ ".join(parts) if parts else "[]"
+
+    term = block(flat[len(pre):-len(post)], {"accessory_pose": None})
+    return ("/-- `RobotBody::detect_collisions_with_skips`: the pairs that become collision tasks, in push order (`sc.hasTool`, `sc.hasBase`,\n"
+            "`sc.envLen` describe the body; `e` runs over the environment indices) -/\n"
+            "def tasksSrc (sc : Scene R) (own : Safety R) (skip : List Nat) : List (Nat × Nat) :=\n"
+            "  let checkTool := !(skip.contains jTool);\n  " + term + "\n")
+
+
+def check_required_src(coll_src):
+    body, _ = fn_body(coll_src, "check_required")
+    flat = " ".join(re.sub(r"//[^\n]*", "", body).split())
+    if flat != ("let unmoved = |k: usize| skip.contains(&k) || k == J_BASE || k >= ENV_START_IDX; "
+                "!(unmoved(i) && unmoved(j)) && self.safety.min_distance(i as u16, j as u16) > &NEVER_COLLIDES"):
+        raise TranslateError("check_required changed: " + flat)
+    return ("/-- `check_required`: not both bodies unmoved, and the pair's distance in the body's OWN table above NEVER_COLLIDES -/\n"
+            "def checkRequiredSrc (own : Safety R) (skip : List Nat) (i j : Nat) : Bool :=\n"
+            "  let unmoved := fun (k : Nat) => skip.contains k || k == jBase || k ≥ envStart;\n"
+            "  !(unmoved i && unmoved j) && decide (minDistanceSrc own i j > neverCollides)\n")
+
+
 def generate_coll(coll_src):
     """`CollisionTask::collides`: the decision logic with the three parry3d queries as named oracles"""
     body, _ = fn_body(coll_src, "collides")
@@ -794,7 +910,7 @@ def generate_coll(coll_src):
             "variable {R : Type} [OpwNum R]\n\n"
             "/-- `CollisionTask::collides` (`Some(pair)` = true): `r_min` is the pair's entry of the safety table, the three parry3d\n"
             "queries (intersection test, AABB pre-filter, distance) are parameters -/\n"
-            "def taskCollidesSrc (r_min_ : R) (intersects_ aabbNear_ : Bool) (distance_ : R) : Bool :=\n  " + term + "\n\n" + md + "\nend Opw.SrcColl\n")
+            "def taskCollidesSrc (r_min_ : R) (intersects_ aabbNear_ : Bool) (distance_ : R) : Bool :=\n  " + term + "\n\n" + md + "\n" + check_required_src(coll_src) + "\n" + tasks_src(coll_src) + "\nend Opw.SrcColl\n")
 
 
 if __name__ == "__main__":
